@@ -31,6 +31,8 @@ func (o Op) String() string {
 	switch o.K {
 	case "newset":
 		return fmt.Sprintf("NewIntSet(%s)", ints(o.V))
+	case "newsetwin":
+		return fmt.Sprintf("NewIntSet(args[%d:%d]...) with args=%v", o.V[0], o.V[1], argPoolTemplate)
 	case "insert":
 		return fmt.Sprintf("m%d.Insert(%d)", o.A, o.V[0])
 	case "union":
@@ -74,11 +76,12 @@ type member struct {
 }
 
 type pool struct {
-	m []member
+	m    []member
+	args []int // this history's copy of argPoolTemplate
 }
 
 func newPool() *pool {
-	p := &pool{}
+	p := &pool{args: append([]int{}, argPoolTemplate...)}
 	// The shared empty values are members 0 and 1 of every pool: they must read
 	// as empty in every state, and operations are applied to them like to any other value.
 	p.m = append(p.m, member{isSet: true, set: data.EmptyIntSet, mset: nil, how: "EmptyIntSet"})
@@ -112,6 +115,8 @@ func (p *pool) enabled(o Op) bool {
 	switch o.K {
 	case "newset", "newmap":
 		return true
+	case "newsetwin":
+		return len(o.V) == 2 && o.V[0] >= 0 && o.V[0] <= o.V[1] && o.V[1] <= len(p.args)
 	case "insert":
 		return in(o.A) && p.m[o.A].isSet && len(o.V) == 1
 	case "union":
@@ -133,6 +138,12 @@ func (p *pool) apply(o Op) {
 			ms = modelInsert(ms, v)
 		}
 		p.m = append(p.m, member{isSet: true, set: data.NewIntSet(o.V...), mset: ms, how: o.String()})
+	case "newsetwin":
+		var ms []int
+		for _, v := range argPoolTemplate[o.V[0]:o.V[1]] { // the model reads the pristine template
+			ms = modelInsert(ms, v)
+		}
+		p.m = append(p.m, member{isSet: true, set: data.NewIntSet(p.args[o.V[0]:o.V[1]]...), mset: ms, how: o.String()})
 	case "insert":
 		a := p.m[o.A]
 		p.m = append(p.m, member{isSet: true, set: a.set.Insert(o.V[0]), mset: modelInsert(a.mset, o.V[0]), how: o.String()})
@@ -358,7 +369,12 @@ func runHistory(ops []Op, checkAll bool) (p *pool, vkey, what string) {
 	return p, "", ""
 }
 
-var vals = []int{1, 2, 3}
+// vals includes 0: the zero value is what a "nothing emitted yet" sentinel looks like
+var vals = []int{0, 1, 2}
+
+// argPool is the caller-side slice whose windows are passed to NewIntSet(window...): sets built from overlapping
+// windows of one backing array must stay independent of each other (each history gets a fresh copy)
+var argPoolTemplate = []int{2, 0, 1, 0, 2}
 
 // alphabet lists the operations applicable to pool p.
 func alphabet(p *pool, withMaps bool) []Op {
@@ -373,6 +389,9 @@ func alphabet(p *pool, withMaps bool) []Op {
 				ops = append(ops, Op{K: "newset", V: []int{a, b, c}})
 			}
 		}
+	}
+	for _, w := range [][]int{{0, 3}, {0, 5}, {1, 4}, {2, 5}, {3, 5}} {
+		ops = append(ops, Op{K: "newsetwin", V: w})
 	}
 	if withMaps {
 		ops = append(ops, Op{K: "newmap"})             // nil
@@ -537,7 +556,7 @@ func init() {
 	explore.Register(&explore.Check{
 		ID:    "C15",
 		Level: "model_checking",
-		Rule: "explicit-state BFS over all operation histories (NewIntSet with <=3 args from {1,2,3}, Insert, Union, NewIntMap, Inc, Filter; " +
+		Rule: "explicit-state BFS over all operation histories (NewIntSet with <=3 args from {0,1,2} and with windows of one shared argument slice, Insert, Union, NewIntMap, Inc, Filter; " +
 			"Len/Each/Keys/Get observed on every pool member after every transition) on the real data.IntSet/IntMap values; state = pool contents + len/cap/alias class; " +
 			"non-trivial = a state in which some set has spare capacity or two values share a backing store (the situations in which in-place mutation can be observed)",
 		Assume: []string{
